@@ -16,6 +16,7 @@ import (
 // RevCli is the reverse proxy the server builds per connection.
 type RevCli struct {
 	WhoAmI func(ctx context.Context) (int, error)
+	Twice  func(ctx context.Context, x int) (int, error)
 }
 
 // RevCliTagged reaches the same client-side method through an alias registered on the client.
@@ -25,9 +26,24 @@ type RevCliTagged struct {
 
 // RevHnd is the client-side reverse handler: it reports the identity of its client.
 type RevHnd struct {
-	s    *vsched.Sched
-	id   int
-	hold bool
+	s     *vsched.Sched
+	id    int
+	hold  bool
+	mu    sync.Mutex
+	twice int // number of Twice calls served
+}
+
+func (r *RevHnd) Twice(ctx context.Context, x int) (int, error) {
+	r.mu.Lock()
+	r.twice++
+	r.mu.Unlock()
+	return 2 * x, nil
+}
+
+func (r *RevHnd) TwiceRan() bool {
+	r.mu.Lock()
+	defer r.mu.Unlock()
+	return r.twice > 0
 }
 
 func (r *RevHnd) WhoAmI(ctx context.Context) (int, error) {
@@ -74,6 +90,35 @@ func (h *RevSrv) Call(ctx context.Context, tok int) (string, error) {
 	return fmt.Sprintf("tok%d-id%d", tok, id), nil
 }
 
+// Call2 has two different reverse methods in flight at the same time on its connection.
+func (h *RevSrv) Call2(ctx context.Context, tok int) (string, error) {
+	rc, ok := jsonrpc.ExtractReverseClient[RevCli](ctx)
+	if !ok {
+		return "no-reverse-client", nil
+	}
+	h.mu.Lock()
+	h.inRev[tok] = true
+	h.mu.Unlock()
+	type res struct {
+		v   int
+		err error
+	}
+	done := make(chan res, 1)
+	h.s.Go(fmt.Sprintf("rev2-%d", tok), func() {
+		v, err := rc.Twice(ctx, tok)
+		done <- res{v, err}
+	})
+	id, err := rc.WhoAmI(ctx) // parked on the client until Twice has been served
+	tw := <-done
+	h.mu.Lock()
+	delete(h.inRev, tok)
+	h.mu.Unlock()
+	if err != nil || tw.err != nil {
+		return fmt.Sprintf("tok%d-reverr(%v,%v)", tok, err, tw.err), nil
+	}
+	return fmt.Sprintf("tok%d-id%d-tw%d", tok, id, tw.v), nil
+}
+
 // CallN is Call as a notification: its outcome is recorded on the server.
 func (h *RevSrv) CallN(ctx context.Context, tok int) error {
 	v, _ := h.Call(ctx, tok)
@@ -84,6 +129,7 @@ func (h *RevSrv) CallN(ctx context.Context, tok int) error {
 }
 
 type FwdCli struct {
+	Call2 func(ctx context.Context, tok int) (string, error)
 	Call  func(ctx context.Context, tok int) (string, error)
 	CallN func(ctx context.Context, tok int) error `notify:"true"`
 }
@@ -112,6 +158,13 @@ func init() {
 				add(fmt.Sprintf("m2-loss%d", loss), 1+b, map[string]int{"m": 2, "loss": loss})
 				add(fmt.Sprintf("m2-loss%d-hold", loss), 1+b, map[string]int{"m": 2, "loss": loss, "hold": 1})
 			}
+			// two different reverse methods in flight together on each connection
+			add("m2-twometh", 1+b, map[string]int{"m": 2, "twometh": 1})
+			// only the first client registers the alias: the second one must reject the name
+			add("m2-tagged-aliasonly0", 1+b, map[string]int{"m": 2, "tagged": 1, "aliasonly0": 1})
+			// the first client loses its connection and reconnects; a reverse call on the new connection
+			add("m2-reconnect", 1+b, map[string]int{"m": 2, "reconnect": 1})
+			add("m2-reconnect-tagged", 1+b, map[string]int{"m": 2, "reconnect": 1, "tagged": 1})
 			add("ctl-http", 0, map[string]int{"m": 1, "http": 1})
 			add("ctl-noopt", 0, map[string]int{"m": 1, "noopt": 1})
 			return ps
@@ -138,14 +191,21 @@ func revBody(s *vsched.Sched, p Param) {
 	w.Serve()
 	clis := make([]FwdCli, m)
 	closers := make([]jsonrpc.ClientCloser, m)
+	hnds := make([]*RevHnd, m)
+	twometh, reconnect := p.I("twometh") == 1, p.I("reconnect") == 1
 	for j := 0; j < m; j++ {
 		var err error
 		if p.I("http") == 1 {
 			closers[j], err = w.HTTPClient("T", &clis[j])
 		} else {
-			opts := []jsonrpc.Option{jsonrpc.WithPingInterval(0), jsonrpc.WithTimeout(0), jsonrpc.WithNoReconnect(),
-				jsonrpc.WithClientHandler("R", &RevHnd{s: s, id: j + 1, hold: p.I("hold") == 1 && j == 0})}
-			if tagged {
+			hnds[j] = &RevHnd{s: s, id: j + 1, hold: p.I("hold") == 1 && j == 0 || twometh}
+			opts := []jsonrpc.Option{jsonrpc.WithPingInterval(0), jsonrpc.WithTimeout(0), jsonrpc.WithClientHandler("R", hnds[j])}
+			if reconnect && j == 0 {
+				opts = append(opts, jsonrpc.WithReconnectBackoff(10*time.Millisecond, 40*time.Millisecond))
+			} else {
+				opts = append(opts, jsonrpc.WithNoReconnect())
+			}
+			if tagged && (p.I("aliasonly0") == 0 || j == 0) {
 				opts = append(opts, jsonrpc.WithClientHandlerAlias("custom.who", "R.WhoAmI"))
 			}
 			closers[j], err = w.WS("T", &clis[j], opts...)
@@ -161,7 +221,21 @@ func revBody(s *vsched.Sched, p Param) {
 	s.Teardown = w.Teardown
 	s.EnvEnabled = func(name string) bool {
 		if strings.HasPrefix(name, "whoami-") {
+			if twometh {
+				var id int
+				fmt.Sscanf(name, "whoami-%d", &id)
+				return hnds[id-1].TwiceRan() // both reverse calls of the connection are in flight
+			}
 			return has("lost") // the reverse handler of the lost client answers only after the loss
+		}
+		if name == "fwd2-go" {
+			n := 0
+			for _, d := range w.Net.Dials() {
+				if d.OK {
+					n++
+				}
+			}
+			return has("cut") && n >= m+1
 		}
 		return true
 	}
@@ -186,7 +260,15 @@ func revBody(s *vsched.Sched, p Param) {
 				if v != "no-reverse-client/<nil>" {
 					s.Violate("C16: a reverse client was present without the server option / over HTTP: %s", v)
 				}
-			case loss != 0 && j == 0:
+			case twometh:
+				if v != fmt.Sprintf("tok%d-id%d-tw%d/<nil>", j+1, j+1, 2*(j+1)) {
+					s.Violate("C16: forward call of client %d, whose handler had two different reverse methods in flight, returned %s", j+1, v)
+				}
+			case p.I("aliasonly0") == 1 && j == 1:
+				if v != "tok2-reverr/<nil>" {
+					s.Violate("C16: a reverse call by an alias that only ANOTHER client registered was not rejected by client %d: %s", j+1, v)
+				}
+			case (loss != 0 || reconnect) && j == 0:
 				// the lost client: any error or result, but never another client's identity
 				if strings.Contains(v, "-id") && !strings.Contains(v, fmt.Sprintf("tok%d-id%d/", j+1, j+1)) {
 					s.Violate("C16: forward call of client %d got a foreign identity: %s", j+1, v)
@@ -195,6 +277,13 @@ func revBody(s *vsched.Sched, p Param) {
 				if v != fmt.Sprintf("tok%d-id%d/<nil>", j+1, j+1) {
 					s.Violate("C16: forward call of client %d returned %s, want its own token and its own identity", j+1, v)
 				}
+			}
+		}
+		if reconnect {
+			if v, ok := obs.Get("ret-fwd2"); !ok {
+				s.Violate("C16: the forward call made after the client reconnected never returned; alive: %s", strings.Join(s.Alive(), " "))
+			} else if v != "tok7-id1/<nil>" {
+				s.Violate("C16: after the client reconnected, a reverse call on the new connection did not reach it: %s", v)
 			}
 		}
 		srv.mu.Lock()
@@ -213,8 +302,24 @@ func revBody(s *vsched.Sched, p Param) {
 				obs.Set(fmt.Sprintf("ret-%d", j), "tok%d-id%d/%s", j+1, j+1, errClass(err))
 				return
 			}
+			if twometh {
+				v, err := clis[j].Call2(context.Background(), j+1)
+				obs.Set(fmt.Sprintf("ret-%d", j), "%s/%s", v, errClass(err))
+				return
+			}
 			v, err := clis[j].Call(context.Background(), j+1)
 			obs.Set(fmt.Sprintf("ret-%d", j), "%s/%s", v, errClass(err))
+		})
+	}
+	if reconnect {
+		s.Go("zcut", func() {
+			w.Net.Link(0).Sever(vnet.FIN)
+			obs.Set("cut", "1")
+		})
+		s.Go("zzfwd2", func() {
+			s.Env("fwd2-go")
+			v, err := clis[0].Call(context.Background(), 7)
+			obs.Set("ret-fwd2", "%s/%s", v, errClass(err))
 		})
 	}
 	if loss != 0 {
